@@ -7,6 +7,9 @@ from .expr import E, DEFAULT, show
 def is_old(sem, x, cell, fields=()):
     """x is the previously stored value of `cell` (field path `fields`), possibly defaulted"""
     w = sem.w
+    l0 = sem.label(x)
+    if l0 is not None and l0[0] == "stored" and l0[1] == cell and tuple(l0[3]) == tuple(fields):
+        return True  # (covers the result of a save-and-return function such as the hub's resync)
     i = w.ident(x)
     xs = i.args if i.op == "phi" else (i,)
     saw = False
@@ -26,10 +29,23 @@ def is_old(sem, x, cell, fields=()):
 def classify(sem, cell, v, fields=()):
     """('preserved',) | ('delta', +1|-1, amount expr) | ('absolute', expr)"""
     w = sem.w
+    if is_old(sem, v, cell, fields):
+        return ("preserved",)
+    v0 = w.ident(v, expand_ws=False)
     v = w.ident(v)
     if is_old(sem, v, cell, fields):
         return ("preserved",)
-    x = v
+    # (deltas are read off the unexpanded shape first: `resync()?.pool + x` is a delta on the stored pool)
+    for x in (v0, v):
+        r = _delta(sem, cell, x, fields)
+        if r is not None:
+            return r
+    return ("absolute", v)
+
+
+def _delta(sem, cell, x, fields):
+    w = sem.w
+    v = x
     if x.op == "call" and x.info in ("std::result::Result::map_err",):
         x = w.ident(x.args[0])
     if x.op == "call" and x.info in ("cosmwasm_std::Uint128::checked_sub", "cosmwasm_std::Uint128::checked_add") and len(x.args) == 2:
@@ -40,7 +56,7 @@ def classify(sem, cell, v, fields=()):
             return ("delta", 1 if x.info == "Add" else -1, w.ident(x.args[1]))
         if x.info == "Add" and is_old(sem, x.args[1], cell, fields):
             return ("delta", 1, w.ident(x.args[0]))
-    return ("absolute", v)
+    return None
 
 
 def ledger_entries(sem, effects, cells):
